@@ -423,10 +423,24 @@ where
                     .spawn_scoped(scope, move || {
                         TID.with(|t| t.set(Some(i)));
                         {
-                            // wait for the token
+                            // wait for the token. (If the machine is so loaded that this thread was
+                            // given the token, did not get the CPU for a while and was therefore taken
+                            // for OS-blocked, it makes itself runnable again here.)
                             let mut g = SCHED.lock().unwrap();
-                            while g.as_ref().map(|s| s.cur != i).unwrap_or(false) {
-                                g = CV.wait(g).unwrap();
+                            loop {
+                                match g.as_mut() {
+                                    Some(st) => {
+                                        if st.th[i] == ThState::OsBlocked {
+                                            st.th[i] = ThState::Runnable;
+                                            CV.notify_all();
+                                        }
+                                        if st.cur == i {
+                                            break;
+                                        }
+                                    }
+                                    None => break,
+                                }
+                                g = CV.wait_timeout(g, std::time::Duration::from_millis(100)).unwrap().0;
                             }
                         }
                         let r = std::panic::catch_unwind(std::panic::AssertUnwindSafe(|| body(i)));
